@@ -784,7 +784,7 @@ func (t *tokenizer) skipWhitespaceWith(handler commentHandler) (int, bool, error
 		}
 
 		switch c {
-		case ' ', '\t', '\n', '\r':
+		case ' ', '\t', '\n', '\r', '\v', '\f':
 			// Skipped.
 
 		case '/':
